@@ -182,6 +182,11 @@ def _(eng, ci, a, sp):
 
 @S('Duration::from_millis')
 def _(eng, ci, a, sp):
+    w = getattr(eng, 'world', None)
+    if w is not None and 'from_millis_hook' in getattr(w, '__dict__', {}):
+        r = w.from_millis_hook(eng, a[0], sp)
+        if r is not None:
+            return r
     return dur(tval(a[0]) * 1000000)
 
 
@@ -232,10 +237,35 @@ def _(eng, ci, a, sp):
 @S('<Duration as MulAssign>::mul_assign', 'MulAssign::mul_assign')
 def _(eng, ci, a, sp):
     r = a[0]
-    d = r.get()
-    k = eng.concrete(a[1], 'duration factor')
-    r.set(dur(tval(d.f[0]) * k))
+    r.set(dur_mul(eng, r.get(), a[1], sp))
     return UNIT
+
+
+DURATION_MAX_NS = (2 ** 64 - 1) * 1000000000 + 999999999
+
+
+def dur_mul(eng, d, k, sp):
+    """Duration * u32 / *= u32: checked multiplication, panics on overflow like core::time::Duration"""
+    k = eng.concrete(k, 'duration factor')
+    x = tval(d.f[0])
+    w = getattr(eng, 'world', None)
+    if w is not None and 'on_duration_mul' in getattr(w, '__dict__', {}):
+        w.on_duration_mul(eng, x, k, sp)
+    r = x * k
+    if isinstance(r, int):
+        over = r > DURATION_MAX_NS
+    else:
+        over = eng.branch(r > DURATION_MAX_NS, 'duration overflow')
+    if over:
+        raise Panic('overflow when multiplying duration by scalar', sp)
+    return dur(r)
+
+
+@S('<Duration as Mul<u32>>::mul', '<Duration as Mul>::mul', 'Mul::mul')
+def _(eng, ci, a, sp):
+    if isinstance(a[0], Struct) and a[0].name == 'Duration':
+        return dur_mul(eng, a[0], a[1], sp)
+    raise Unsupported('Mul::mul on %r' % (a[0],))
 
 
 @S('<Instant as Add>::add', 'Add::add')
